@@ -3,6 +3,7 @@ import HpxVerif.Lemmas.F64Lemmas
 import HpxVerif.Lemmas.BitsLemmas
 import HpxVerif.Props.C18
 import HpxVerif.Lemmas.LayerBmi
+import HpxVerif.Lemmas.SizeGen
 
 set_option autoImplicit false   -- an unknown identifier in a statement is an error, never a new variable
 
@@ -250,5 +251,18 @@ theorem backend_top_bits_any_build (cfg : Cfg) (d' d0h u v c' : Nat) (hd1 : 1 â‰
 /-! ## C01 -/
 
 end AnyBuild
+
+
+/-! ## constants from the source (`Gen/SizeTables.lean`, regenerated on every run from `Layer::new`) -/
+
+/-- every integer field of `Layer::new(depth)` (depth, nside, nside_minus_1, n_hash, twice_depth, d0h_mask, x_mask, y_mask,
+    xy_mask, nside_remainder_mask), depth 0..29: the model's values are the ones the source computes -/
+theorem layer_fields_from_source :
+    (List.range 30).map Hpx.SizeGen.modelLayerFields = Gen.Size.layerFields := Hpx.SizeGen.layer_fields_from_source
+
+/-- `time_half_nside` (the exponent increment of the scaling by `nside / 2`): `(depth âˆ’ 1) << 52`, `âˆ’1 << 52` at depth 0 -/
+theorem time_half_nside_from_source :
+    (List.range 30).map (fun d => Hash.timeHalfNside d * 2 ^ 52) = Gen.Size.layerTimeHalfNside :=
+  Hpx.SizeGen.time_half_nside_from_source
 
 end Hpx.C02
